@@ -328,6 +328,105 @@ def rule_total(ctx) -> None:
         ctx.check(ok, "C13.TOTAL", f"{cb.qual}/{nm}{what}", cb.loc(node), f"{what} on the flag value is narrowed", f"{what} on the untrusted flag value is not narrowed")
 
 
+LENIENT_CODEC_ERRORS = ("ignore", "replace", "surrogatepass", "surrogateescape", "backslashreplace", "xmlcharrefreplace", "namereplace")
+
+
+def _partial_text_ops(fn: Func, names: Set[str]) -> List[Tuple[ast.AST, str, str]]:
+    """operations that raise for SOME value of a str (not for a wrong type): strict encoding (lone surrogates - what json.loads
+    makes of half an emoji), number parsing, .index / .rindex, %-formatting / .format with the text as the template."""
+    out = []
+
+    def mentions(e):
+        return next((y.id for y in ast.walk(e) if isinstance(y, ast.Name) and y.id in names), None)
+
+    for x in walk_no_defs(fn.node):
+        if isinstance(x, ast.Call) and isinstance(x.func, ast.Attribute):
+            nm = mentions(x.func.value)
+            if nm is None:
+                continue
+            a = x.func.attr
+            if a == "encode":
+                err = kwarg(x, "errors") or (x.args[1] if len(x.args) > 1 else None)
+                if not (err is not None and const_str(err) in LENIENT_CODEC_ERRORS):
+                    out.append((x, nm, "strict .encode() (UnicodeEncodeError on a lone surrogate)"))
+            elif a in ("index", "rindex"):
+                out.append((x, nm, f".{a}() (ValueError when absent)"))
+            elif a in ("format", "format_map") and isinstance(x.func.value, ast.Name):
+                out.append((x, nm, f".{a}() with the text as template"))
+        elif isinstance(x, ast.Call) and dotted(x.func) in ("int", "float", "complex", "bytes", "bytearray") and x.args and mentions(x.args[0]):
+            if dotted(x.func) in ("bytes", "bytearray") and len(x.args) + len(x.keywords) < 2:
+                continue
+            out.append((x, mentions(x.args[0]), f"{dotted(x.func)}() of text"))
+        elif isinstance(x, ast.BinOp) and isinstance(x.op, ast.Mod) and isinstance(x.left, ast.Name) and x.left.id in names:
+            out.append((x, x.left.id, "%-formatting with the text as template"))
+    return out
+
+
+def rule_text_total(ctx) -> None:
+    """"no input makes the sanitiser raise" also over the VALUES of a str: every operation on the untrusted text (and on what
+    helpers derive from it) that raises for some string value sits under a catch-all handler.  Followed into the module's own
+    helpers through the arguments that carry the text."""
+    pv = ctx.func(SAN + ":parse_and_validate")
+    rd = ctx.rd(pv)
+    tainted: Set[str] = {pv.params[0]}
+    changed = True
+    while changed:
+        changed = False
+        for d in rd.all_defs:
+            if d.name not in tainted and d.value is not None and any(isinstance(y, ast.Name) and y.id in tainted for y in ast.walk(d.value)):
+                tainted.add(d.name)
+                changed = True
+    work: List[Tuple[Func, Set[str], int]] = [(pv, tainted, 0)]
+    seen: Set[Tuple[str, Tuple[str, ...]]] = set()
+    n_fn = 0
+    n_ops = 0
+    while work:
+        fn, names, depth = work.pop()
+        sig = (fn.qual, tuple(sorted(names)))
+        if sig in seen:
+            continue
+        seen.add(sig)
+        n_fn += 1
+        ctx.analysed_funcs.add(fn.qual)
+        for node, nm, what in _partial_text_ops(fn, names):
+            n_ops += 1
+            ok = guarded_by_catch_all(ctx.prog, fn, node) is not None
+            ctx.check(ok, "C13.TOTAL", ctx.okey(f"{fn.qual}/text-op-cannot-raise"), fn.loc(node), f"{what} runs under a catch-all handler",
+                      f"`{src(node)[:50]}`: {what} is applied to the untrusted text outside any try/except: a planner text with such a value makes the sanitiser raise instead of returning a verdict")
+        if depth >= 3:
+            continue
+        for x in walk_no_defs(fn.node):
+            if not isinstance(x, ast.Call):
+                continue
+            kind, q = ctx.prog.callee(fn, x) or (None, None)
+            if q not in ctx.prog.funcs or guarded_by_catch_all(ctx.prog, fn, x) is not None:
+                continue
+            cal = ctx.prog.funcs[q]
+            if cal.module.name != fn.module.name:
+                continue
+            ps = [p for p in cal.params if p != "self"]
+            carried = {ps[i] for i, a in enumerate(x.args) if i < len(ps) and any(isinstance(y, ast.Name) and y.id in names for y in ast.walk(a))}
+            carried |= {k.arg for k in x.keywords if k.arg in ps and any(isinstance(y, ast.Name) and y.id in names for y in ast.walk(k.value))}
+            if not carried:
+                continue
+            crd = ctx.rd(cal)
+            t2 = set(carried)
+            ch = True
+            while ch:
+                ch = False
+                for d in crd.all_defs:
+                    if d.name not in t2 and d.value is not None and any(isinstance(y, ast.Name) and y.id in t2 for y in ast.walk(d.value)):
+                        t2.add(d.name)
+                        ch = True
+            work.append((cal, t2, depth + 1))
+    ctx.floor("C13.TOTAL", "functions the untrusted text is followed into", n_fn, 2)
+    # positive control: the detector itself must still see the three idioms (the clean tree has none of them)
+    import types
+    probe = ast.parse("def _p(t):\n    a = len(t.encode('utf-8'))\n    b = t.index('{')\n    c = int(t)\n    d = t.encode('utf-8', 'replace')\n    return a, b, c, d\n").body[0]
+    ctx.floor("C13.TOTAL", "positive control: value-partial text operations recognised in a synthetic helper", len(_partial_text_ops(types.SimpleNamespace(node=probe), {"t"})), 3)
+    ctx.holds("C13.TOTAL", f"{pv.qual}/text-ops-scanned", pv.loc(), f"{n_ops} value-partial text operation(s) found in {n_fn} function(s) reached by the untrusted text; each is under a catch-all", nontrivial=False)
+
+
 def rule_token_budget_identity(ctx) -> None:
     """the Speak op's own token budget is told from 'not set' by identity: `if op and getattr(op, "max_tokens", None):` sends a
     budget of 0 to the fallback (the bundle's caps.tokens) and an utterance is emitted against a zero budget"""
@@ -419,5 +518,6 @@ def run(ctx) -> None:
     rule_tok(ctx)
     rule_pure(ctx)
     rule_total(ctx)
+    rule_text_total(ctx)
     rule_token_budget_identity(ctx)
     rule_schema(ctx)
